@@ -184,7 +184,7 @@ func checkC09(c *Ctx) error {
 	}
 	budget, n2count, n3count := 300, 60, 40
 	if !c.Quick() {
-		budget, n2count, n3count = 3000, 600, 400
+		budget, n2count, n3count = 2000, 350, 250 // both task orders are explored: twice the paths of one order
 	}
 	for _, b := range c15Bodies(1) {
 		add(1, b, 0, 0, 1)
@@ -206,6 +206,13 @@ func checkC09(c *Ctx) error {
 		}
 		add(3, x, y, z, 1)
 		k++
+	}
+	// curated: grammars in which both analysis tasks have something to report (a left-recursive
+	// rule next to an undefined and an unused one), so that their order can show
+	for _, r1 := range []int{0, 30, 230, 203} {
+		add(2, 212, r1, 0, 1)
+		add(2, 221, r1, 0, 1)
+		add(3, 211, 30, 233, 1)
 	}
 	cfg := symx.DefaultConfig()
 	cfg.ValidateEvery = 400
